@@ -337,6 +337,7 @@ func main() {
 	ctx.JobsW("product", 1, 4, func(int) { product() })
 	ctx.Jobs("sender", len(alphabet), func(j int) { senderSpace(j) })
 	ctx.Jobs("pauses", 8, func(j int) { pauses(j, 8) })
+	ctx.Jobs("periodic", 16, func(j int) { periodic(j, 16) })
 	ctx.Jobs("thru", 1, func(int) { thru(); refused(); fractions() })
 	ctx.Set("traces_validated_against_impl", ctx.GetInt("transitions"))
 	ctx.Set("max_depth", ctx.GetInt("max:depth"))
@@ -354,6 +355,10 @@ func replay() {
 		thru()
 		refused()
 		fractions()
+		ctx.Finish("replay")
+	}
+	if m["kind"] == "periodic" {
+		replayPeriodic(m)
 		ctx.Finish("replay")
 	}
 	if m["kind"] == "stream" {
